@@ -143,6 +143,11 @@ def make_ca(c):
     lo, hi = int(a.min()) if a.size else 0, int(a.max()) if a.size else 0
     # the same integer states in a narrower / unsigned container when they fit
     pick = (lo + 3 * hi + a.size) % 4
+    if (lo + hi + 2 * a.size) % 7 == 3 and a.ndim == 2:
+        import warnings
+        with warnings.catch_warnings():
+            warnings.simplefilter("ignore")
+            return np.matrix(a)                             # the 2-D array subclass (rows = timesteps, columns = cells)
     if pick == 1 and 0 <= lo and hi <= 255:
         return a.astype(np.uint8)
     if pick == 2 and -128 <= lo and hi <= 127:
